@@ -32,7 +32,7 @@ theorem foldl_bwPrint (sep : Option Bytes) (bufs : List Bytes) (st : BW) :
     cases hb : b.isEmpty with
     | true => simp [bwPrint, hb]
     | false =>
-      simp only [bwPrint, hb, Bool.false_eq_true, if_false, if_true]
+      simp only [bwPrint, hb, Bool.false_eq_true, if_false, if_true, bwTerminator, Char.reduceToNat]
       rw [joinSep_cons, joinAfter_cons]
       cases sep with
       | none => cases st.printed <;> simp [sepLine, List.append_assoc]
